@@ -252,4 +252,40 @@ CHECKS = {
         quick=dict(tests=[dict(name="TestC20Weights", cases=1600), dict(name="TestC20Returns", cases=3200)]),
         thorough=dict(tests=[dict(name="TestC20Weights", cases=32000), dict(name="TestC20Returns", cases=64000)]),
     ),
+    "C19": dict(
+        level="exploration",
+        rule=("Inputs: journals of 40-150 generated actions over many days (accruals, closes, assertions, @performance, price forest), shuffled and dealt over include trees of "
+              "up to 25 files in nested directories; a processor combination as the commands build them (check; balance pipeline check/prices/valuate/filter/close/query with -m level:suffix "
+              "and --remap; portfolio weights/returns pipelines; print; transcode), with and without valuation, every interval; in 2/3 of the cases one injected fault: syntax error, "
+              "missing include, invalid account type (load stages), failed assertion, unopened account, missing price (pipeline stages). "
+              "Oracle (a) in-process, harness and knut libraries built with -race -tags verif, one schedule-perturbation seed per shard, GOMAXPROCS in {1,2,4,16}: journal.FromPath + Build().Process(...) "
+              "under a watchdog; the race detector halts the shard on any race; census - the multiset of (date, kind, accounts/commodities, amounts, description) of the built journal equals "
+              "what the generator wrote into the files (transactions after reference accrual expansion); with a fault the call returns an error of a failing stage (not success, not a bare "
+              "cancellation); afterwards no goroutine of the loader or pipeline is left. (b) subprocess: the -race build of knut, 3 runs with different perturbation seeds/GOMAXPROCS, must "
+              "report no race, exit like the plain binary and print the same bytes; a fault must give exit != 0. Non-trivial: >=3 files, >=20 distinct days, >=3 pipeline stages."),
+        assumptions=["detection of races is probabilistic: a race is seen only if the conflicting accesses overlap in some run (perturbation, GOMAXPROCS variation, repetition raise the odds)",
+                     "liveness is checked as: returns within 90 s (in-process) / the two-stage subprocess timeout"],
+        quick=dict(race_bin=True, race_test=True, tests=[dict(name="TestC19Lib", cases=480, sched_env=True, timeout="30m"), dict(name="TestC19CLI", cases=160, timeout="30m")]),
+        thorough=dict(race_bin=True, race_test=True, tests=[dict(name="TestC19Lib", cases=9600, sched_env=True, timeout="120m"), dict(name="TestC19CLI", cases=3200, timeout="120m")]),
+    ),
+    "C18": dict(
+        level="fault_enumeration",
+        rule=("Inputs: `knut format f1..fn` over sets of 1-4 files and `knut infer --inplace [-a A] -t train target` (also self-trained); files are noisy renderings of "
+              "syntactically valid journals (formatted form differs), byte-mutated ones (mostly unparseable), files that fail late (junk after the last directive, invalid byte in a comment), "
+              "already formatted ones, arbitrary bytes and larger journals. "
+              "Faults: RLIMIT_FSIZE=k through prlimit, with EVERY k in [0, len(new)+2] when the largest new content is <= 600 bytes (each k is one evaluation; the replay "
+              "file lists the k tried), else the boundaries 0,1,len-1,len,len+1 of every target plus 8-14 drawn offsets; directory with mode 0555 while knut runs as uid 65534 "
+              "(setpriv), optionally with further targets in a writable directory, preceded by a control run as the same user with writable directories; one fault-free run per case. "
+              "Oracle: every target's bytes equal its old or its complete new content (format: in-process parser + syntax.FormatFile; infer: stdout of the same command without "
+              "--inplace, or the formatted target with any trained candidate account in each slot); "
+              "per file k < len(new) => old, k >= len(new) and parseable => new; unparseable / failing before the write => bit-identical; exit 0 iff every target was rewritten, "
+              "otherwise exit != 0 with a diagnostic; files that are not targets (training file) unchanged; read-only directory => unchanged and exit != 0 while targets in writable "
+              "directories are still rewritten. Leftover temporary files are labelled, not judged. "
+              "Non-trivial: a limit strictly inside the write (0 < k < len(new)) of a target with new != old; distinct by (contents of the file set, k)."),
+        assumptions=["RLIMIT_FSIZE faults stand for 'the write is cut short at byte k' (write returns EFBIG after k bytes); power loss between write and rename is not modelled",
+                     "uid 65534 + mode 0555 stands for an unwritable directory (the harness itself runs as root)",
+                     "fetch (third user of atomic.WriteFile) needs the network and is not exercised"],
+        quick=dict(tests=[dict(name="TestC18", cases=128)]),
+        thorough=dict(tests=[dict(name="TestC18", cases=1280)]),
+    ),
 }
